@@ -66,6 +66,8 @@ def queries(tier):
                 own = ('i' if sg else 'u') + str(bits)
                 rts = [r for r in ('i32', 'u32', 'i64', 'u64') if r != own]
                 qrts = ['i32', 'u32'] if bits == 64 else [('u64' if sg else 'i64')]
+            if tier == 'quick' and w in ('be_int16_t', 'be_uint32_t'):
+                continue  # quick: one 16-bit and one 32-bit wrapper with a 64-bit operand (be_uint16_t x i64, be_int32_t x u64)
             if tier == 'quick' and pre != 'be':
                 continue  # quick: one byte order (the operator bodies are shared by le_/be_/re_; byte order itself is covered by the R = T queries)
             for r in (qrts if tier == 'quick' else rts):
@@ -75,6 +77,8 @@ def queries(tier):
                 cheap = ('add', 'sub') if flt else ('add', 'sub', 'and', 'or', 'xor', 'shl', 'shr')
                 costly = ('mul', 'div') if flt else ('mul', 'div', 'mod')
                 for k in cheap + (costly if pre == 'be' else ()):
+                    if tier == 'quick' and k in ('or', 'xor'):
+                        continue  # same code shape as &=
                     d2 = dict(defs); d2['OP'] = OPN[k]
                     qs.append(Q('%s_x_%s_%s' % (w, r, k), 'h_mixed.c', d2, unwind=10, bounds=bnd, backend='' if flt else 'z3', flags=['--cvc5'] if flt else [], cost=300 if k in costly else 50,
                                 desc='%s %s= (%s)d: object bytes and returned value vs the native usual-arithmetic-conversion result, both operands symbolic' % (w, k, r)))
